@@ -5,6 +5,8 @@ import json, subprocess
 props=[json.loads(l) for l in open('/verif/properties.jsonl')]
 hooks_commits=subprocess.run(['git','-C','/repo','log','--format=%h','--reverse','--grep=^verif hooks'],capture_output=True,text=True).stdout.split()
 C={
+ "C16":("exploration","exhaustive enumeration of a boundary alphabet of key/value lengths x record positions x segment capacities with byte-exact round-trip oracles (now / after recovery / after restart), and of over-long probes with forged hash collisions and shared prefixes with atomic-rejection oracles",
+        "boundary alphabet, not the full 2^16 x 2^29 range; listed in the evidence rule"),
  "C14":("model_checking","bounded exhaustive operation-sequence enumeration after a fixed set of reads, on a harness file system in mmap-lifetime mode (memory handed out by File.Slice poisoned on every write/truncate/close) and on the real fs.OSMMap/fs.OS with faults turned into panics; returned-slice-stability and input-slice-independence oracles",
         "depth bound as reported; simfs poison mode models the strictest FileSystem the interface allows"),
  "C17":("model_checking","bounded exhaustive program enumeration (all words <= d over writes/deletes/compaction/restart/backup/torn-tail restarts/large records) executed on simfs, fs.Mem, fs.OS and fs.OSMMap with a four-way differential oracle on per-call results and segment bytes",
